@@ -822,6 +822,11 @@ impl Property for C14 {
             vec![w(N::from(0u32)), GOp::Decompress { dst: 0, f: 0 }, GOp::AllocElem { dst: 1, src: Generator, mode: Mode::Witness, via: Via::Element }, GOp::Bin { dst: 2, form: rl::BinForm::AddVV, a: 0, b: 1 }, GOp::EnforceNotEqual { a: 2, b: 1 }],
             vec![we(Identity), GOp::IsZero { a: 0 }, GOp::Compress { dst: 0, e: 0 }],
             vec![we(Torsion(Box::new(Identity))), GOp::IsZero { a: 0 }, GOp::AllocElem { dst: 1, src: Identity, mode: Mode::Witness, via: Via::Element }, GOp::EnforceNotEqual { a: 0, b: 1 }],
+            // offered coordinates outside the group (k*B + T4): no forged helper witness may make the allocation accept them
+            vec![GOp::AllocRaw { dst: 0, src: Generator, shift: true, via_affine: false }],
+            vec![GOp::AllocRaw { dst: 0, src: MulGen(5u64.into()), shift: true, via_affine: true }],
+            vec![GOp::AllocRaw { dst: 0, src: Identity, shift: true, via_affine: false }],
+            vec![GOp::AllocRaw { dst: 0, src: MulGen(7u64.into()), shift: false, via_affine: false }, GOp::Compress { dst: 0, e: 0 }],
             // the coordinate bits / bytes a circuit may publish: they must stay the canonical decomposition
             vec![we(Generator), GOp::ToBytes { a: 0 }],
             vec![we(MulGen(5u64.into())), GOp::ToBits { a: 0 }],
